@@ -323,7 +323,8 @@ def _r9_refusal_not_caught(ctx, pkg):
                 names = {"BaseException"} if h.type is None else {ast.unparse(e).split(".")[-1] for e in (h.type.elts if isinstance(h.type, ast.Tuple) else [h.type])}
                 if not (names & CATCHES):
                     continue
-                reraises = any(isinstance(x, ast.Raise) for st in h.body for x in ast.walk(st))
+                reraises = any(isinstance(x, ast.Raise) or (isinstance(x, ast.Call) and ast.unparse(x.func) in ("sys.exit", "exit", "quit", "os._exit", "os.abort"))
+                               for st in h.body for x in ast.walk(st))
                 ctx.check(reraises, "R9", f"{file}:rateexpr() refusal handled", (file, h.lineno),
                           "the handler re-raises" if reraises else
                           f"`except {', '.join(sorted(names))}` around {ast.unparse(calls[0])[:50]} carries on without raising: a request the dust model refuses "
@@ -678,7 +679,17 @@ def _r6(ctx):
             # understood and wrong: a filter / format over the species' binding energy, or another attribute of the loop species
             reads_eb = val is not None and val[0] == "out" and not good and any(x in (("attr", var, "eb"), ("attr", var, "binding_energy")) for x in J._subterms(val[1]))
             other_attr = vbase is not None and not good and vbase[0] == "attr" and vbase[1] == var
-            if good or reads_eb or other_attr:
+            # printed through something that prints a float as Python does (`| string`, `"%s" | format(x)`): the same digits
+            if reads_eb and val[1][0] == "filter" and val[1][2] in (("attr", var, "eb"), ("attr", var, "binding_energy")) and val[1][1] in ("string", "safe", "trim") and not val[1][3] and not val[1][4]:
+                good = True
+            if reads_eb and val[1][0] == "filter" and val[1][1] == "format" and val[1][2] in (("const", "%s"), ("const", "%r")) and tuple(val[1][3]) in ((("attr", var, "eb"),), (("attr", var, "binding_energy"),)) and not val[1][4]:
+                good = True
+            # understood and wrong: a numeric format / rounding of the binding energy, another (existing) attribute of the loop species
+            rounding = reads_eb and not good and any(isinstance(x, tuple) and x and ((x[0] == "filter" and x[1] in ("round", "int", "float", "abs")) or
+                                                     (x[0] == "const" and isinstance(x[1], str) and re.search(r"%[-+ #0-9.]*[defgEG]|\{[^}]*:[^}]*[defgEG%]\}", x[1]))) for x in J._subterms(val[1]))
+            sp_ = package(ctx.tree).cls("Species")
+            other_attr = other_attr and (vbase[2] in sp_.methods or vbase[2] in sp_.attrs)
+            if good or rounding or other_attr:
                 ctx.check(good, "R6", f"{k}:value", (rel, lp[5]), "the value is the same species' binding energy, printed unrounded" if good else
                           "the constant is not the loop species' binding energy printed as-is (a filter/format rounds or another value is printed): rates reading eb_<alias> differ from those inlining the value",
                           expected="{{ s.eb }}", found=J.show(val[1]) if val is not None and val[0] == "out" else str(val)[:80])
@@ -744,7 +755,11 @@ def _r1(ctx, rm, pkg):
             dc, fn = pkg.resolve(G, mname)
             key = f"{G}:{mname}"
             if fn is None:
-                ctx.bad("R1", key, (pkg.cls(G).file, 0), f"Grain.rateexpr dispatches type {tau} to {mname}, which {G} does not have")
+                if any(mname in pkg.cls(c_).attrs for c_ in pkg.mro(G) if c_ in pkg.classes):
+                    # (`rate_x = _refuse` in a class body: a method under another name)
+                    ctx.unrec("R1", key, (pkg.cls(G).file, 0), f"{mname} is bound in a class body by an assignment, not a `def`: what it does is not read")
+                else:
+                    ctx.bad("R1", key, (pkg.cls(G).file, 0), f"Grain.rateexpr dispatches type {tau} to {mname}, which {G} does not have")
                 continue
             n += 1
             vs = rm.variants(G, mname)
@@ -797,7 +812,7 @@ def _r1(ctx, rm, pkg):
             for gd in f.guards:
                 for sg in split_guard(gd):
                     c, pol = norm_guard((simp(sg[0]), sg[1]))
-                    if c[0] == "cmp" and c[1] == ("Eq",) and len(c[2]) == 2 and not pol:
+                    if c[0] == "cmp" and c[1] in (("Eq",), ("Is",)) and len(c[2]) == 2 and not pol:
                         a, b = c[2]
                         for x, y in ((a, b), (b, a)):
                             if x == ("attr", ("param", pname), "reaction_type"):
@@ -839,6 +854,9 @@ def _r1(ctx, rm, pkg):
             ctx.bad("R1", key_, (g.file, fn.lineno), msg_, expected=f"raise unless reaction_type == {tau}", found=f"validated against type {sorted(set(other))}")
         elif opaque:
             ctx.unrec("R1", key_, (g.file, fn.lineno), f"no test of the reaction type is visible in the method; it may sit in {sorted(set(opaque))}, which is not understood")
+        elif any(isinstance(x, ast.Attribute) and x.attr == "reaction_type" for x in ast.walk(fx)) or not any(isinstance(x, ast.Raise) for x in ast.walk(fx)) and any(isinstance(x, ast.Call) for x in ast.walk(fx)):
+            # the method does look at the reaction type (a membership test, a table lookup ..) / hands the reaction to something else: not read
+            ctx.unrec("R1", key_, (g.file, fn.lineno), "the method reads the reaction type / calls something, but no `raise` under a comparison of the type with one ReactionType member is seen")
         else:
             ctx.bad("R1", key_, (g.file, fn.lineno), msg_, expected=f"raise unless reaction_type == {tau}", found="no raise under a test of the reaction type")
 
@@ -846,6 +864,9 @@ def _r1(ctx, rm, pkg):
 def _is_base_call(pkg, dc, fn, mname, st) -> bool:
     """is statement `st` of override `dc.mname` the call of the base-class method with the override's own argument?
     super().m(reac) / super(Cls, self).m(reac) / Base.m(self, reac)"""
+    if isinstance(st, ast.Assign) and len(st.targets) == 1 and isinstance(st.targets[0], ast.Name) and isinstance(st.value, ast.Call):
+        # `_ = super().m(reac)` / `base = super().m(reac)`: the base method has run all the same
+        st = ast.Expr(value=st.value)
     if not (isinstance(st, ast.Expr) and isinstance(st.value, ast.Call) and isinstance(st.value.func, ast.Attribute) and st.value.func.attr == mname):
         return False
     call, recv = st.value, st.value.func.value
@@ -971,12 +992,20 @@ def _r2_r5(ctx, rm, pkg):
     _TWO[0] = False
     vs = [v for v in rm.variants("RR07Grain", "rate_depletion") if v.kind == "text"]
     from ..valueflow import guards_satisfiable
-    ELEC = ("attr", ("sub", ("attr", REAC, "reactants"), ("const", 0)), "is_electron")
     for v in vs:
         if not guards_satisfiable(v.conds):
             continue        # a combination of conditions no species satisfies (e.g. electron and not electron)
-        el = not guards_satisfiable(v.conds, [(ELEC, False)])      # the conditions of this arm force the electron
+        # `<the accreting species>.is_electron`, however that species is picked (position 0, unpacking, the non-grain reactant)
+        elec = {x for c_, _ in v.conds for x in walk(c_) if isinstance(x, tuple) and len(x) == 3 and x[0] == "attr" and x[2] == "is_electron" and species_role(x[1]) in ("s", "ng")}
+        el = any(not guards_satisfiable(v.conds, [(a, False)]) for a in elec)      # the conditions of this arm force the electron
+        non_el = any(not guards_satisfiable(v.conds, [(a, True)]) for a in elec)   # ... or exclude it
         names = {h: (name_hole(ir)[0] or "UNKNOWN") for h, ir in v.holes.items()}
+        if "UNKNOWN" in names.values() or not (el or non_el):
+            # a pasted value that is not understood, or an arm that is not seen to be (or not to be) the electron's: its mass
+            # dependence is not judged
+            ctx.unrec("R5", f"RR07Grain.rate_depletion:arm@{v.line}", (v.file, v.line), "cannot tell whether this arm of the accretion law is the electron's / which values it pastes: "
+                      + "; ".join(show(c_)[:50] for c_, _ in v.conds)[:160])
+            continue
         txt = re.sub(r"H\d+_", lambda m: names.get(m.group(0), m.group(0)), v.text)
         try:
             c = calg.canon_str(txt)
@@ -1095,6 +1124,7 @@ def _r3(ctx, pkg):
         if must_raise:
             raises = [f for f in fl.facts if f.kind == "raise"]
             left = [x[2] for f in fl.facts if f.value is not None for x in walk(simp(f.value)) if isinstance(x, tuple) and len(x) == 5 and x[0] == "meth" and x[1] == SELF]
+            left += [c.func.id for c in ast.walk(fn) if isinstance(c, ast.Call) and isinstance(c.func, ast.Name) and (SPECIES, c.func.id) in pkg.functions]
             if raises or not left:
                 ctx.check(bool(raises), "R3", f"Species.{prop}:raises", (SPECIES, fn.lineno), "a surface species without any binding energy is refused with an error")
             else:
